@@ -22,6 +22,9 @@ from ..cfg import must_facts, holds, canon_fact
 from ..rules import settle_sites, check_settles, event_facts, node_calls, node_assigns, is_none
 from ..mutate import mutate, remove_stmts, replace_expr, replace_stmt, parse_stmt, parse_expr
 from ..model import AnalysisError
+from ..x_syncnorm import normalized
+
+NORM_MODULES = ("tornado/locks.py", "tornado/queues.py", "tornado/gen.py", "tornado/concurrent.py", "tornado/ioloop.py", "tornado/platform/asyncio.py")
 from ..x_sync import check_none_tests, own_walk, node_counts, method_call_on, container_uses, exit_states, own_find, own_settle_sites, check_outcome_reads, stable_facts, handler_catches_cancel
 from .c33 import _drop_done_test, _rename_attr
 from .c34 import check_with_timeout
@@ -144,28 +147,18 @@ def check_multi(ck):
         x = q.dotted(c.args[0])
         lp = [l for l in loops if l.ast.target.id == x and any(c is y for st in l.ast.body for y in ast.walk(st))]
         ck.ob("C36.multi-listen", mf, c, len(lp) == 1, "the callback is registered inside the loop over all children, on the loop element")
-        # the guard `x not in S` is read off the enclosing if-statements (the must-facts
-        # rightly forget it once S.add(x) ran, which is exactly what has to happen before/after registering)
-        # the guard `x not in S` is read off the enclosing if-statements (the must-facts
-        # rightly forget it once S.add(x) ran, which is exactly what has to happen before/after registering)
-        seen = []
-        pm = q.parent_map(mf.node)
-        child = c
-        for anc in q.ancestors(pm, c):
-            if lp and anc is lp[0].ast:
-                break
-            if isinstance(anc, ast.If):
-                in_body = any(child is st_ or any(child is y for y in ast.walk(st_)) for st_ in anc.body)
-                for conj in q.split_conj(anc.test) if in_body else []:
-                    t, pol = canon_fact(conj, True)
-                    if not pol and t.startswith(x + " in "):
-                        seen.append(t)
-            child = anc
+        # `x in S` is False on every path from the start of the iteration to the registration (whatever the control-flow
+        # shape: nested if, `continue` guard, early return); the fact is only forgotten when x or S is re-bound — S.add(x)
+        # in between is exactly what is expected
+        sf = stable_facts(cfg, lambda t: t.startswith(x + " in "))
         ok = False
-        for t in seen:
+        for t, pol in sf[nd.id]:
+            if pol:
+                continue
             s_ = t[len(x) + 4:]
-            adds = [a for l in lp for st in l.ast.body for a in ast.walk(st) if method_call_on(a, s_, "add") and len(a.args) == 1 and q.dotted(a.args[0]) == x]
             init = [st for st in q.stores_to(mf.node, s_) if isinstance(getattr(st, "value", None), ast.Call) and q.call_attr(st.value) == "set" and not st.value.args]
+            adds = [(n2, a) for n2, a in own_find(mf, lambda a: method_call_on(a, s_, "add") and len(a.args) == 1 and q.dotted(a.args[0]) == x)
+                    if any(a is y for l in lp for st in l.ast.body for y in ast.walk(st)) and (t, False) in sf[n2.id]]
             if adds and init:
                 ok = True
         ck.ob("C36.multi-listen", mf, c, ok, "a child is listened to only if it was not seen before, and is then recorded as seen (duplicates are listened to once, matching the set of unfinished children)")
@@ -444,6 +437,7 @@ def check_error_callback(ck, wt):
 
 
 def run(ck):
+    ck.repo = normalized(ck.repo, NORM_MODULES)  # alias / named-boolean / temporary / setter-helper normalisation (vt/x_syncnorm.py)
     ck.rule("C36.cancel-aware", "a .result()/.exception() on a future the callback did not create is under a handler for CancelledError/BaseException, under `not F.cancelled()`, or after an earlier read that returned (else a cancelled input raises out of the callback and the output is never settled)")
     ck.rule("C36.settle", "every settle of an output future is under `not F.done()` or on a future created in the same function")
     ck.rule("C36.chain", "chain_future registers copy once on the source; copy settles/cancels the target exactly once unless it was done, with the source's own result/exception; an explicit cancelled path acts on the target")
